@@ -106,7 +106,7 @@ func propC08(c c08Case, o *hx.Obs) *hx.Failure {
 			mg.SetPvMove(hx.ToEngine(*v.Pv))
 			pvSet = true
 		}
-		if !v.Batch {
+		if !v.Batch && v.Take != 0 { // (with take == 0 the generator is never called for this position)
 			prevSig = rp.FEN4()
 		}
 
